@@ -17,6 +17,31 @@ CHECKS = {
              ]},
         ],
     },
+    "C08": {
+        "explanation": "bounded symbolic execution of commitLog.Clean with compaction on the real log over memFS, survivors compared with an independent oracle",
+        "assumptions": ["memFS models the file system", "message timestamps are positive and non-decreasing (server wall clock)",
+                        "scan workers are scheduled run-to-block (no pre-emption inside scanSegments)"],
+        "groups": [
+            {"pkg": "./server/commitlog", "overlay": "commitlog", "pkgname": "commitlog",
+             "harnesses": [
+                 {"name": "VerifC08Compact", "quick": {"msgs": 3}, "thorough": {"msgs": 4},
+                  "covers": ["done", "multi-segment", "append-during-compaction"],
+                  "targets": ["compactCleaner).cleanSegment", "compactCleaner).scanSegments", "ReverseReader).ReadMessage"]},
+             ]},
+        ],
+    },
+    "C09": {
+        "explanation": "bounded symbolic execution of deleteCleaner/commitLog.Clean on the real log over memFS with symbolic limits and clock",
+        "assumptions": ["memFS models the file system", "message timestamps are positive and non-decreasing (segment last-write times are ordered)"],
+        "groups": [
+            {"pkg": "./server/commitlog", "overlay": "commitlog", "pkgname": "commitlog",
+             "harnesses": [
+                 {"name": "VerifC09Retention", "quick": {"msgs": 4}, "thorough": {"msgs": 5},
+                  "covers": ["done", "multi-segment", "dropped", "nothing-dropped", "append-during-clean"],
+                  "targets": ["deleteCleaner).applyAgeLimit", "deleteCleaner).applyMessagesLimit", "deleteCleaner).applyBytesLimit", "commitLog).rebaseSegments"]},
+             ]},
+        ],
+    },
     "C14": {
         "explanation": "bounded symbolic execution of protocol.checkEnvelope and wrappers over all byte strings up to maxlen",
         "assumptions": [
@@ -36,6 +61,12 @@ CHECKS = {
 TECH = "bounded symbolic execution of the real Go code (go/ssa) with z3; counterexamples replayed natively"
 
 META = {
+    "C01": {"text": "Bounded symbolic model checking of the implementation: the real commit log (New/Append/AppendMessageSet/Truncate/Close+New/readers) runs symbolically over an in-memory file system; operation choice, payload bytes, timestamps, epochs, truncation offsets and the segment-size limit are symbolic; after every step the readable content is compared with an independent model.",
+            "design_ref": "DESIGN.md §4 C01", "note": "bounds: <=2 batches of <=2 messages / 2-3 operation steps / 3-4 messages with a long-lived reader; keys/values nil|empty|1-2 symbolic bytes; segment size 1..4096; memFS stands in for the OS; timestamps > 0", "technique": TECH},
+    "C08": {"text": "Bounded symbolic model checking of the implementation: real compaction on a real log over memFS for every key pattern (nil/empty/1 symbolic byte), every segment layout reachable with the stated sizes, every HW, 1-2 scan workers, an append racing the compaction, and a repeated Clean; forward and reverse read-back from every start compared with an independently computed survivor set.",
+            "design_ref": "DESIGN.md §4 C08", "note": "bounds: 3 (quick) / 4 (thorough) messages + 1 concurrent append, segment size 40..200; scan workers run-to-block; compaction racing Truncate outside", "technique": TECH},
+    "C09": {"text": "Bounded symbolic model checking of the implementation: real retention cleaning on a real log over memFS with symbolic byte/message/age limits, symbolic clock and an append racing the clean; suffix-only, newest kept, minimality, every limit afterwards, files removed, contiguous read-back, idempotence.",
+            "design_ref": "DESIGN.md §4 C09", "note": "bounds: 4 (quick) / 5 (thorough) single-message appends, segment size 40..200 (so 1-5 segments of 1-4 messages), values of 1 or 4 bytes; limits and TTL full 64-bit", "technique": TECH},
     "C14": {"text": "Bounded symbolic model checking of the implementation: checkEnvelope and the Unmarshal wrappers are executed symbolically over every byte string up to the stated length and every expected type; run-time panics are explicit paths; each assertion is an SMT query (unsat on every path = holds for all inputs within the bound).",
             "design_ref": "DESIGN.md §4 C14", "note": "bound: data length <= 14 (quick) / 24 (thorough); protobuf decoding behind the envelope is assumed total; CRC is an uninterpreted function", "technique": TECH},
 }
